@@ -115,7 +115,7 @@ def eval_case(case):
     # unit level: readers
     got_rates = read_range_input(a['prob'])
     scale = max([abs(x) for x in rates] + [1e-300])
-    if len(got_rates) != len(rates) or any(abs(g - w) > 1e-9 * scale for g, w in zip(got_rates, rates)):
+    if len(got_rates) != len(rates) or any(not abs(g - w) <= 1e-9 * scale for g, w in zip(got_rates, rates)):
         fail('range_is_arithmetic_progression',
              f"--prob {a['prob']}: {len(got_rates)} values ending {got_rates[-3:]}, expected "
              f"{len(rates)} values ending {rates[-3:]}")
@@ -165,7 +165,7 @@ def eval_case(case):
             if type(sim).__name__ != want_cls:
                 fail('method', f'{type(sim).__name__} built for method {a["method"]}')
             d = sim.error_model.direction
-            if abs(sum(d) - 1) > 1e-12:
+            if not abs(sum(d) - 1) <= 1e-12:
                 fail('direction_sums_to_one', f'{d}')
             ax = 'XYZ'.index(a['bias'])
             if d[ax] + 1e-15 < max(d):
